@@ -821,6 +821,26 @@ func init() {
 					}
 				}
 			}
+			// the monitored sessions the router knows are exactly those that are up (nothing of an ended session remains)
+			{
+				want, got := []string{}, []string{}
+				for _, pn := range exp.Up {
+					want = append(want, fmt.Sprintf("AS%d", w.peers[pn].AS))
+				}
+				for _, n := range s.vr.Neighbors() {
+					got = append(got, fmt.Sprintf("AS%d", n.PeerAS))
+				}
+				sort.Strings(want)
+				sort.Strings(got)
+				if kind, missing, extra := core.SetDiff(want, got); kind != "" || len(want) != len(got) {
+					c := "session-up"
+					if exp.Conn == "down" {
+						c = "after-session-end"
+					}
+					return &core.Divergence{Step: i, Action: a, Field: "sessions", Kind: "wrong", Class: c, Want: want, Got: got,
+						Detail: fmt.Sprintf("monitored sessions known to the router: missing=%v extra=%v", missing, extra)}
+				}
+			}
 			// every VRF the router lists is one of ours (nothing else may appear)
 			if exp.Conn == "down" {
 				for _, vrf := range s.vr.Router().GetVRFs() {
